@@ -12,7 +12,7 @@ import pnr_gen
 from lib import zlit, vlist
 
 LEVEL = "proof"
-UNITS = []
+UNITS = ["GenNetwork"]
 PLACERS = ["sequential", "hilbert", "rcm", "breadth_first", "rand", "sa_c", "sa_py"]
 VEC = [(1, 0), (1, 1), (0, 1), (-1, 0), (-1, -1), (0, -1)]
 
@@ -97,6 +97,7 @@ def run(chk, args):
                         "constraint, disconnected machine, minimisation failed) map nothing, so there is nothing to deliver"]
     chk.trusted += ["the rig_c_sa annealing kernel (third-party compiled code outside /repo) is exercised but only its "
                     "outputs are validated"]
+    chk.regenerate(UNITS)
     chk.prove()
     n = 160 if chk.tier == "quick" else 4000
     if args.replay:
